@@ -15,7 +15,10 @@ import (
 	"sort"
 	"strings"
 	"sync"
+	"sync/atomic"
+	"syscall"
 	"testing"
+	"time"
 
 	"golang.org/x/crypto/openpgp"
 	"golang.org/x/crypto/openpgp/armor"
@@ -49,6 +52,7 @@ type c45Result struct {
 	progress bool   // the parser accepted at least something (a result was returned)
 	known    string // id of the known finding whose crash site was hit
 	err      error  // violation
+	hung     bool   // the call did not return (the goroutine is still spinning)
 }
 
 func errClass(err error) string {
@@ -116,17 +120,72 @@ func drain(r io.Reader, inputLen int, bufSize int) (n int, outcome string) {
 
 // c45Exec runs one target on one input.  mode selects keyring/prompt variants
 // for ReadMessage and the read buffer size.
-func c45Exec(p *keyPool, target int, data, aux []byte, mode uint8) (res c45Result) {
+//
+// The call runs under a progress-based watchdog: input consumption and drained
+// output are counted; when the process has burnt hangCPU seconds of CPU time
+// without any of the counters moving, the call is declared non-terminating
+// (the largest legitimate computation without I/O in these parsers - an
+// iterated S2K over 65 MB - takes a fraction of a second of CPU).
+func c45Exec(p *keyPool, target int, data, aux []byte, mode uint8) c45Result {
+	prog := new(atomic.Int64)
+	done := make(chan c45Result, 1)
+	go func() { done <- c45ExecInner(p, target, data, aux, mode, prog) }()
+	tick := time.NewTicker(200 * time.Millisecond)
+	defer tick.Stop()
+	last := prog.Load()
+	cpuAtLast := processCPU()
+	for {
+		select {
+		case res := <-done:
+			return res
+		case <-tick.C:
+			if now := prog.Load(); now != last {
+				last, cpuAtLast = now, processCPU()
+				continue
+			}
+			if spent := processCPU() - cpuAtLast; spent >= hangCPU {
+				return c45Result{label: "hang", hung: true, err: fmt.Errorf("%s does not terminate on %d bytes: %.0f s of CPU time without consuming input or producing output (still running)", c45TargetName[target], len(data), spent.Seconds())}
+			}
+		}
+	}
+}
+
+const hangCPU = 8 * time.Second
+
+func processCPU() time.Duration {
+	var ru syscall.Rusage
+	if syscall.Getrusage(syscall.RUSAGE_SELF, &ru) != nil {
+		return 0
+	}
+	return time.Duration(ru.Utime.Nano() + ru.Stime.Nano())
+}
+
+type countingReader struct {
+	r io.Reader
+	n *atomic.Int64
+}
+
+func (c *countingReader) Read(p []byte) (int, error) {
+	n, err := c.r.Read(p)
+	c.n.Add(int64(n) + 1)
+	return n, err
+}
+
+func c45ExecInner(p *keyPool, target int, data, aux []byte, mode uint8, prog *atomic.Int64) (res c45Result) {
 	bufSize := []int{1, 22, 23, 512, 4096}[int(mode>>4)%5]
 	var label string
+	rd := func(b []byte) io.Reader { return &countingReader{bytes.NewReader(b), prog} }
+	drain := func(r io.Reader, inputLen int, bufSize int) (int, string) {
+		return drain(&countingReader{r, prog}, inputLen, bufSize)
+	}
 	pn := guard(func() {
 		switch target {
 		case c45Keyring:
-			el, err := openpgp.ReadKeyRing(bytes.NewReader(data))
+			el, err := openpgp.ReadKeyRing(rd(data))
 			label = errClass(err)
 			res.progress = len(el) > 0
 		case c45ArmoredKeyring:
-			el, err := openpgp.ReadArmoredKeyRing(bytes.NewReader(data))
+			el, err := openpgp.ReadArmoredKeyRing(rd(data))
 			label = errClass(err)
 			res.progress = len(el) > 0
 		case c45Message:
@@ -162,7 +221,7 @@ func c45Exec(p *keyPool, target int, data, aux []byte, mode uint8) (res c45Resul
 			if mode&0xc0 == 0xc0 {
 				pf = nil
 			}
-			md, err := openpgp.ReadMessage(bytes.NewReader(data), ring, pf, nil)
+			md, err := openpgp.ReadMessage(rd(data), ring, pf, nil)
 			label = errClass(err)
 			if err == nil {
 				res.progress = true
@@ -181,15 +240,15 @@ func c45Exec(p *keyPool, target int, data, aux []byte, mode uint8) (res c45Resul
 			}
 		case c45Detached:
 			_, vring := c45SigKeys(p)
-			_, err := openpgp.CheckDetachedSignature(vring, bytes.NewReader(aux), bytes.NewReader(data))
+			_, err := openpgp.CheckDetachedSignature(vring, rd(aux), rd(data))
 			label = errClass(err)
 			res.progress = err == nil
 			if mode&1 == 1 {
-				_, err2 := openpgp.CheckArmoredDetachedSignature(vring, bytes.NewReader(aux), bytes.NewReader(data))
+				_, err2 := openpgp.CheckArmoredDetachedSignature(vring, rd(aux), rd(data))
 				label += "+" + errClass(err2)
 			}
 		case c45Armor:
-			blk, err := armor.Decode(bytes.NewReader(data))
+			blk, err := armor.Decode(rd(data))
 			label = errClass(err)
 			if err == nil {
 				res.progress = true
@@ -840,7 +899,11 @@ func c45MutateText(rt *rapid.T, text []byte) ([]byte, string) {
 func c45Generate(rt *rapid.T, p *keyPool, items []c45Item) (target int, data, aux []byte, desc string) {
 	if rapid.IntRange(0, 5).Draw(rt, "built") == 0 {
 		// signed artefacts built field by field with correct hash tags (every key algorithm x hash)
-		target, data, aux, desc = c45BuiltSigned(rt, p)
+		if rapid.IntRange(0, 2).Draw(rt, "builtring") == 0 {
+			target, data, desc = c45BuiltKeyRing(rt, p)
+		} else {
+			target, data, aux, desc = c45BuiltSigned(rt, p)
+		}
 		if rapid.IntRange(0, 3).Draw(rt, "builtmut") == 0 {
 			var kind string
 			data, kind = c45MutateBinary(rt, p, data)
@@ -1000,6 +1063,9 @@ func TestC45(t *testing.T) {
 	// the unmodified corpus must be accepted (sanity of the corpus and of the harness)
 	for _, it := range items {
 		res := c45Exec(p, it.target, it.data, it.aux, 0)
+		if res.hung {
+			c45Hang(c, t, it.target, it.data, it.aux, "corpus:"+it.name, res)
+		}
 		if res.known != "" {
 			if _, listed := ev.IsKnownFinding(res.known); listed {
 				c.Excluded()
@@ -1114,6 +1180,62 @@ func TestC45(t *testing.T) {
 		}
 		c.Exhaustive("session key block lengths 0..8 x every encryption key of the keyring", n)
 	}
+	// bounded-exhaustive: key packets for every algorithm octet over every kind of real key
+	// material (matching and mismatching shapes), v4 and v3, as primary or stray subkey
+	// packet, at the start, in the middle and at the end of a ring; armored for the v4 primaries
+	{
+		n, i := 0, 0
+		for _, m := range c45Materials(p) {
+			for _, algo := range c45KeyAlgos {
+				for _, version := range []int{4, 3} {
+					for _, tag := range []int{6, 14, 5} {
+						for pos := 0; pos < 3; pos++ {
+							i++
+							if !ev.Mine(i) {
+								continue
+							}
+							ring := shapedRing(p, shapedEntity(m, algo, version, tag, uint64(i)), pos)
+							desc := fmt.Sprintf("built-ring:%s-material/algo%d/v%d/tag%d/pos%d", m.name, algo, version, tag, pos)
+							runs := []struct {
+								target int
+								data   []byte
+							}{{c45Keyring, ring}}
+							if version == 4 && tag == 6 {
+								runs = append(runs, struct {
+									target int
+									data   []byte
+								}{c45ArmoredKeyring, refpgp.EncodeArmor("PGP PUBLIC KEY BLOCK", nil, ring, 64, "\n", true)})
+							}
+							for _, r := range runs {
+								res := c45Exec(p, r.target, r.data, nil, 0)
+								if res.hung {
+									c45Hang(c, t, r.target, r.data, nil, desc, res)
+								}
+								if res.known != "" {
+									if _, l := ev.IsKnownFinding(res.known); l {
+										c.Excluded()
+										continue
+									}
+								}
+								if res.known != "" || res.err != nil {
+									what := fmt.Sprintf("%s on %s: %v %s", c45TargetName[r.target], desc, res.err, res.known)
+									c.Violation(what, "")
+									t.Fatalf("VF-VIOLATION: property=C45 %s", what)
+								}
+								// (observed, not judged: whether the two ordinary keys of the ring survive)
+								if !res.progress {
+									c.Class("built-ring:no-key-returned:" + res.label)
+								}
+								c.Case(true, desc+"|"+res.label, "built-ring:enumerated", fmt.Sprintf("key-algo=%d", algo))
+								n++
+							}
+						}
+					}
+				}
+			}
+		}
+		c.Exhaustive("key material kind x algorithm octet x version x packet tag x position in the ring", n)
+	}
 	listed := map[string]bool{}
 	for _, id := range []string{"F31", "F32", "F36"} {
 		_, listed[id] = ev.IsKnownFinding(id)
@@ -1123,6 +1245,9 @@ func TestC45(t *testing.T) {
 		target, data, aux, desc := c45Generate(rt, p, items)
 		mode := rapid.Byte().Draw(rt, "mode")
 		res := c45Exec(p, target, data, aux, mode)
+		if res.hung {
+			c45Hang(c, t, target, data, aux, desc, res)
+		}
 		if res.known != "" {
 			if listed[res.known] {
 				c.Excluded()
@@ -1136,7 +1261,9 @@ func TestC45(t *testing.T) {
 		}
 		kinds := descKinds(desc)
 		base := strings.SplitN(desc, "|", 2)[0]
-		if strings.HasPrefix(base, "built-") {
+		if strings.HasPrefix(base, "built-ring") {
+			kinds = "built-ring"
+		} else if strings.HasPrefix(base, "built-") {
 			// key = artefact kind + key + the spec fields that decide the code path
 			kinds = "built-signed"
 			short := desc
@@ -1154,6 +1281,23 @@ func TestC45(t *testing.T) {
 			c.Sample(map[string]any{"api": c45TargetName[target], "derivation": desc, "outcome": res.label, "input_len": len(data), "input_head": ev.Hex(data)})
 		}
 	})
+}
+
+// c45Hang reports a non-terminating call: the input is saved, the evidence is
+// flushed and the process exits at once (the spinning goroutine cannot be
+// stopped, so neither shrinking nor further cases make sense).
+func c45Hang(c *ev.Collector, t *testing.T, target int, data, aux []byte, desc string, res c45Result) {
+	dir := os.Getenv("VF_RUNDIR")
+	if dir == "" {
+		dir = os.TempDir()
+	}
+	path := filepath.Join(dir, "case.json")
+	os.WriteFile(path, []byte(fmt.Sprintf("{\"property\":\"C45\",\"api\":%q,\"derivation\":%q,\"input_hex\":\"%x\",\"aux_hex\":\"%x\"}\n", c45TargetName[target], desc, data, aux)), 0o644)
+	what := fmt.Sprintf("%v; input (%s) saved to %s: %x", res.err, desc, path, clip(data))
+	c.Violation(what, path)
+	c.Flush(t)
+	fmt.Printf("VF-VIOLATION: property=C45 %s\n", what)
+	os.Exit(1)
 }
 
 func clip(b []byte) []byte {
@@ -1199,6 +1343,11 @@ func FuzzC45Keyring(f *testing.F) {
 	krs, _, _, _ := c45BuiltSeeds(p)
 	for _, b := range krs {
 		f.Add(b)
+	}
+	for i, m := range c45Materials(p) {
+		for _, algo := range c45KeyAlgos {
+			f.Add(shapedRing(p, shapedEntity(m, algo, 4, 6, uint64(i)), i%3))
+		}
 	}
 	f.Fuzz(func(t *testing.T, data []byte) { fuzzJudge(t, c45Exec(p, c45Keyring, data, nil, 0)) })
 }
@@ -1311,6 +1460,16 @@ func TestGenFuzzSeeds(t *testing.T) {
 		write("FuzzC45Keyring", "short-digest-selfsig-"+k.name, buildKeyring(k, sp(0x13), sp(0x18), nil, drbg(7)))
 		write("FuzzC45Detached", "short-digest-"+k.name, buildSig(k, sp(0), bdoc, &bytesReader{drbg(8)}), bdoc)
 		write("FuzzC45Message", "short-digest-onepass-"+k.name, buildOnePass(k, sp(0), bdoc, drbg(9)), byte(1))
+	}
+	// primary keys whose algorithm cannot sign, over material that parses (seeded change C45-b)
+	for _, m := range c45Materials(p) {
+		algo := map[string]byte{"rsa": 2, "elgamal": 16, "ec-p256+kdf": 18}[m.name]
+		if algo == 0 {
+			continue
+		}
+		ring := shapedRing(p, shapedEntity(m, algo, 4, 6, 5), 1)
+		write("FuzzC45Keyring", fmt.Sprintf("non-signing-primary-algo%d", algo), ring)
+		write("FuzzC45Armored", fmt.Sprintf("non-signing-primary-algo%d", algo), refpgp.EncodeArmor("PGP PUBLIC KEY BLOCK", nil, ring, 64, "\n", true))
 	}
 	td := testdataDir()
 	cs, _ := os.ReadFile(filepath.Join(td, "seeds", "gpg-clearsign-ec384.asc"))
